@@ -1138,8 +1138,17 @@ class Family:
                        ("lit", b.integer(), False)]),
             ("tuple", [("lit", b.string(), False)]),                       # one-element tuple of a string (which may contain ',')
             ("tuple", [("tuple", [("lit", b.integer(), False), ("lit", b.integer(), False)])]),   # one-element tuple of a tuple
+            # homogeneous lists of admissible values (an id allow-list, a list of countries): a renderer may treat a run of them
+            ("tuple", [("lit", b.integer(), False), ("lit", b.integer(), False), ("lit", b.integer(), False)]),
+            ("tuple", [("lit", b.integer(), False), ("lit", b.integer(), False), ("lit", b.integer(), False), ("lit", b.integer(), False),
+                       ("lit", b.integer(), False)]),
+            ("tuple", [("lit", b.string(), False), ("lit", b.string(), False), ("lit", b.string(), False)]),
+            ("tuple", [("lit", b.decimal(), False), ("lit", b.decimal(), False), ("lit", b.decimal(), False)]),
         ]
         for i, t in enumerate(terms):
+            if t[0] == "tuple":
+                yield self.prog(("if", [("cmp", "KW_EQ", ("id", b.ident("c0")), t)], self.groups(1), None), True, ("a",),
+                                f"right term #{i} tuple compared with ==")
             yield self.prog(("if", [("cmp", "KW_IN" if t[0] == "tuple" else "KW_EQ", ("id", b.ident("c0")), t)],
                              self.groups(1), None), True, ("a",), f"right term #{i} {t[0]}")
             yield self.prog(("if", [("cmp", "KW_EQ", t, ("id", b.ident("c0")))], self.groups(1), None), False, ("a",),
